@@ -476,12 +476,39 @@ func TestVerifC03(t *testing.T) {
 	r.Floor("state_writes_outside_transaction", 500)
 	r.Floor("state_isolation_observations", 5000)
 
+	r.Floor("child_isolation_observations", 20000)
+	r.Floor("child_snapshots_of_origin_without_child_tries", 300)
+	r.Floor("child_snapshots_of_origin_with_child_tries", 300)
+	r.Floor("child_snapshots_of_snapshots", 300)
+	r.Floor("child_ops_on_snapshot_of_snapshot", 1000)
+	r.Floor("child_ops_on_snapshot_born_without_child_tries", 1000)
+	r.Floor("child_clear_empties_child_trie", 200)
+	r.Floor("child_write_while_other_member_holds_equal_child_root_created_independently", 100)
+	r.Floor("child_write_while_sibling_holds_equal_child_root_created_independently", 50)
+	r.Floor("child_root_compared_with_spec", 5000)
+
 	names, vers, scripts := corpus3()
 	r.Fixed("corpus", len(scripts), func(c *vcommon.Case) {
 		if !specOK(c) {
 			return
 		}
 		runScript3(c, names[c.Idx], vers[c.Idx], scripts[c.Idx])
+	})
+
+	// child tries of the members of a fork tree (c03_child_test.go)
+	cnames, cscripts := corpusChild()
+	r.Fixed("child-corpus", len(cscripts), func(c *vcommon.Case) {
+		if !specOK(c) {
+			return
+		}
+		runScriptChild(c, cnames[c.Idx], cscripts[c.Idx])
+	})
+	r.Cases("child-forks", r.Scale(600), func(c *vcommon.Case) {
+		if !specOK(c) {
+			return
+		}
+		e := &envC{c: c}
+		e.run(c.R, c.R.Range(12, 60))
 	})
 
 	// production snapshot path: InmemoryStorageState.TrieState(root) on cache hits and cache misses
